@@ -1,4 +1,5 @@
 import random
+from math import ceil, floor
 from typing import Any, List, Sequence, TypeVar, cast
 
 from niltype import Nil, Nilable
@@ -24,8 +25,18 @@ class Random:
             return random.uniform(start, end)
 
         scale_factor = 10 ** precision
-        left_number = int(start * scale_factor)
-        right_number = int(end * scale_factor)
+        left_number = ceil(start * scale_factor)
+        right_number = floor(end * scale_factor)
+        # the scaled products are inexact (0.07 * 100 == 7.000000000000001): nudge the grid
+        # bounds so that both of them, once scaled back, really lie inside [start, end]
+        if round((left_number - 1) / scale_factor, precision) >= start:
+            left_number -= 1
+        elif round(left_number / scale_factor, precision) < start:
+            left_number += 1
+        if round((right_number + 1) / scale_factor, precision) <= end:
+            right_number += 1
+        elif round(right_number / scale_factor, precision) > end:
+            right_number -= 1
 
         result = cast(float, self.random_int(left_number, right_number) / scale_factor)
         return round(result, precision)
